@@ -117,6 +117,7 @@ func runC04(c *Ctx) {
 	c.Rule(rd, "identity-bearing request inputs are read only in internal/realip on the trusted side; RemoteAddr and the trusted marker are set only by realip.Middleware", 7)
 	c.Rule(re, "no dereference of a missed map lookup (pointer element) anywhere in the module", 10)
 	c.Rule(rf, "list_keys appends a name only if not hidden (entry and resolved), resolved != nil and Allowed(resolved)", 1)
+	c.Rule("R04h", "in a handler that resolves a key, every use of the ResponseWriter after the lookup and every success return is guarded by GetKey err==nil and Allowed(keyConf)==true", 4)
 	c.Rule(rg, "authenticators succeed only for recognised clients / allowed policy decisions; Allowed returns true only from an equality of role or key name", 6)
 
 	authHandlers := c04Routes(c, ra)
@@ -519,6 +520,41 @@ func c04KeyUse(c *Ctx, rb, rc string, handlers []*ssa.Function) {
 					}
 				}
 			}
+		}
+		// R04h: nothing about the key is disclosed, and the request does not succeed, unless authorized
+		rwSet := map[ssa.Value]bool{}
+		for _, par := range fn.Params {
+			if typeName(p, par.Type()) == "net/http.ResponseWriter" {
+				as, _ := aliasesOf(par)
+				for k := range as {
+					rwSet[k] = true
+				}
+			}
+		}
+		nr2 := 0
+		for _, b := range fn.Blocks {
+			for _, in := range b.Instrs {
+				if _, isRet := in.(*ssa.Return); isRet || !usesValue(in, rwSet) {
+					continue
+				}
+				if _, isDbg := in.(*ssa.DebugRef); isDbg {
+					continue
+				}
+				if !reachableAfter(fn, gk, in, nil, nil) {
+					continue
+				}
+				nr2++
+				what := "response use"
+				if ci, ok := in.(ssa.CallInstruction); ok {
+					what = p.describeCall(ci)
+				}
+				missing, path := p.unguardedFromEntry(fn, in, g1, g2)
+				c.Check(len(missing) == 0, "R04h", fmt.Sprintf("%s response#%d %s", fname, nr2, what), p.Pos(in.Pos()), "response written only for an authorized caller", fmt.Sprintf("a response about the key can be written without %v (e.g. served from a cache filled by an entitled caller)", missing), path...)
+			}
+		}
+		for i, r := range p.successReturns(fn) {
+			missing, path := p.unguardedFromEntry(fn, r, g1, g2)
+			c.Check(len(missing) == 0, "R04h", fmt.Sprintf("%s success-return#%d", fname, i+1), p.Pos(r.Pos()), "handler succeeds only for an authorized caller", fmt.Sprintf("the handler can complete successfully without %v", missing), path...)
 		}
 		// R04c: refusal values on the failing sides
 		failG := Guard{Match: func(f Fact) bool {
